@@ -8,6 +8,76 @@ From PV.Spec Require Import PatSyntax PatSem.
 From PV.Proofs Require Import BaseProofs PatSyntaxProofs.
 Ltac Zify.zify_post_hook ::= Z.div_mod_to_equations.
 
+(* ================================================================ the semantics of the flat fragment, without continuations
+   (the definition theorem 3a was first proved against); [den_flat_eq] below: it is [den] of Spec/PatSem.v on flat lists *)
+Section FDen.
+  Variable sc : scan.
+  Definition fden_step (it : item) (s : N) (D : N -> option wlog) (cur : N) : option wlog :=
+    match it with
+    | IByte b => match match_bytes sc [b] cur with Some c => D c | None => None end
+    | IStr bs => match match_bytes sc bs cur with Some c => D c | None => None end
+    | IWild n => D (wadd32 cur (N.of_nat n))
+    | ISkip n => D (wadd32 cur n)
+    | IRange a b =>
+      let c := wadd32 cur a in
+      match sc_slice_len sc c with
+      | None => None
+      | Some slen => first_match D c (N.to_nat (N.min (b - a) slen)) 0
+      end
+    | ISave => option_map (cons (s, cur)) (D cur)
+    | IRead r =>
+      match sc_read sc (read_size r) cur with
+      | Some x => option_map (cons (s, read_value r x)) (D (wadd32 cur (read_size r)))
+      | None => None
+      end
+    | IZero => option_map (cons (s, 0)) (D cur)
+    | IAlign k => if cur mod 2 ^ (N.min k 32) =? 0 then D cur else None
+    | IJump j => match jump_target sc j cur with Some c => D c | None => None end
+    | ISub _ _ | IAlt _ _ => None
+    end.
+  Fixpoint fden (l : list item) (s : N) : N -> option wlog :=
+    match l with
+    | [] => fun _ => Some []
+    | it :: t => fden_step it s (fden t (s + slots_of it))
+    end.
+  Definition fden_top (l : list item) (cur : N) : option wlog := option_map (cons (0, cur)) (fden l 1 cur).
+
+  Lemma first_match_fst (D : N -> dres) (D' : N -> option wlog) base : (forall c, option_map fst (D c) = D' c) ->
+    forall n k, option_map fst (first_match D base n k) = first_match D' base n k.
+  Proof.
+    intros H. induction n as [|n IH]; intros k; cbn [first_match]; [reflexivity|].
+    rewrite <- H. destruct (D (wadd32 base k)) as [r|]; cbn [option_map]; [reflexivity|apply IH].
+  Qed.
+  Lemma dpre_fst p r : option_map fst (dpre [p] r) = option_map (cons p) (option_map fst r).
+  Proof. destruct r as [[lg c]|]; reflexivity. Qed.
+
+  Lemma den_item_flat it s (D : N -> dres) D' : flat_item it = true -> (forall c, option_map fst (D c) = D' c) ->
+    forall c, option_map fst (den_item sc it s D c) = fden_step it s D' c.
+  Proof.
+    intros Hf H c. destruct it; try discriminate Hf; cbn [den_item fden_step]; try apply H.
+    - destruct (match_bytes sc [b] c); [apply H|reflexivity].
+    - destruct (match_bytes sc s0 c); [apply H|reflexivity].
+    - cbv zeta. destruct (sc_slice_len sc (wadd32 c a)); [|reflexivity]. apply first_match_fst. exact H.
+    - rewrite dpre_fst, H. reflexivity.
+    - destruct (sc_read sc (read_size r) c); [|reflexivity]. rewrite dpre_fst, H. reflexivity.
+    - rewrite dpre_fst, H. reflexivity.
+    - destruct (c mod 2 ^ N.min k 32 =? 0); [apply H|reflexivity].
+    - destruct (jump_target sc j c); [apply H|reflexivity].
+  Qed.
+  Lemma den_flat_eq l : forall s c, flat l = true -> option_map fst (den sc l s dend c) = fden l s c.
+  Proof.
+    induction l as [|x t IH]; intros s c Hf; [reflexivity|].
+    cbn [flat forallb] in Hf. apply andb_prop in Hf. destruct Hf as [Hx Ht].
+    change (den sc (x :: t) s dend c) with (den_item sc x s (den sc t (s + slots_of x) dend) c). cbn [fden].
+    apply den_item_flat; [exact Hx|]. intros c'. apply IH. exact Ht.
+  Qed.
+  Lemma den_top_flat l c : flat l = true -> den_top sc l c = fden_top l c.
+  Proof.
+    intros Hf. unfold den_top, fden_top. rewrite <- (den_flat_eq l 1 c Hf).
+    destruct (den sc l 1 dend c) as [[lg c']|]; reflexivity.
+  Qed.
+End FDen.
+
 (* ================================================================ (i) the interpreter as a fold over the atom list *)
 Definition kont := N -> N -> N -> list N -> bool * list N.      (* cursor mask ext save -> verdict, save *)
 Definition ktop : kont := fun _ _ _ save => (true, save).
@@ -474,44 +544,44 @@ Section Sim2.
   Qed.
 
   Lemma sim_item it c0 rest k s D : flat_item it = true -> wf_item it c0 -> s + slots_of it <= e ->
-    sim rest k (s + slots_of it) D -> sim (iso it s ++ rest) (aden sc (iso it s) rest k) s (den_step sc it s D).
+    sim rest k (s + slots_of it) D -> sim (iso it s ++ rest) (aden sc (iso it s) rest k) s (fden_step sc it s D).
   Proof.
     intros Hf Hw Hse H. pose proof Hwf as [Hr [Hptr _]].
-    destruct it; try discriminate Hf; cbn [slots_of] in *; try rewrite N.add_0_r in H; cbn [wf_item] in Hw; cbn [iso den_step].
+    destruct it; try discriminate Hf; cbn [slots_of] in *; try rewrite N.add_0_r in H; cbn [wf_item] in Hw; cbn [iso fden_step].
     - (* byte *) apply sim_byte; assumption.
     - (* string *) apply sim_str; assumption.
     - (* wildcards *) destruct H as [H1 H2]. split.
       + intros cur save Hc. destruct (aden_skips sc n rest k cur save) as [E| ->].
         * rewrite E. apply H1. apply wadd32_lt.
-        * cbn [repeat aden den_step]. change (N.of_nat 0) with 0. rewrite wadd32_0 by exact Hc. apply H1. exact Hc.
+        * cbn [repeat aden fden_step]. change (N.of_nat 0) with 0. rewrite wadd32_0 by exact Hc. apply H1. exact Hc.
       + destruct n as [|n]; [exact H2|]. intros b Hp. discriminate.
     - (* [n] *) destruct H as [H1 H2]. split.
       + intros cur save Hc. rewrite aden_skip_atoms by exact Hc. apply H1. apply wadd32_lt.
       + destruct (N.eq_dec n 0) as [->|Hn]; [exact H2|]. intros b0 Hp. rewrite peek_skip_atoms in Hp by exact Hn. discriminate.
     - (* [a-b] *) destruct Hw as [Hab Hb]. split.
       + intros cur save Hc. rewrite aden_app, aden_skip_atoms by exact Hc.
-        rewrite aden_many_atoms by lia. cbn [den_step]. cbv zeta.
+        rewrite aden_many_atoms by lia. cbn [fden_step]. cbv zeta.
         destruct (sc_slice_len sc (wadd32 cur a)) as [slen|] eqn:El; [|exists save; split; [reflexivity|apply outside_refl]].
         apply (amany_first rest k s D _ slen H El). lia.
       + intros b0 Hp. exfalso. destruct (N.eq_dec a 0) as [->|Hn].
         * cbn [skip_atoms N.eqb app] in Hp. unfold many_atoms in Hp. destruct (256 <=? b - 0); discriminate.
         * rewrite <- app_assoc, peek_skip_atoms in Hp by exact Hn. discriminate.
     - (* ' *) split.
-      + intros cur save Hc. unfold den_step. cbn [aden]. apply (slot_case sc e rest k s D cur cur save H); [lia|exact Hc].
+      + intros cur save Hc. unfold fden_step. cbn [aden]. apply (slot_case sc e rest k s D cur cur save H); [lia|exact Hc].
       + destruct H as [_ H2]. intros b Hp c save Hne. cbn [app peek_byte] in Hp. cbn [aden]. exact (H2 b Hp c _ Hne).
     - (* reads *) split; [|intros b Hp; destruct r; discriminate].
       intros cur save Hc.
-      destruct r; unfold den_step; cbn [ratom aden read_size read_value];
+      destruct r; unfold fden_step; cbn [ratom aden read_size read_value];
       match goal with |- context [sc_read sc ?n cur] => destruct (sc_read sc n cur) as [x|] end;
       try (exists save; split; [reflexivity|apply outside_refl]);
       apply (slot_case sc e rest k s D _ _ save H); try lia; apply wadd32_lt.
     - (* z *) split; [|intros b Hp; discriminate].
-      intros cur save Hc. unfold den_step. cbn [aden]. apply (slot_case sc e rest k s D cur 0 save H); [lia|exact Hc].
+      intros cur save Hc. unfold fden_step. cbn [aden]. apply (slot_case sc e rest k s D cur 0 save H); [lia|exact Hc].
     - (* @k *) destruct H as [H1 H2]. split; [|intros b Hp; discriminate].
-      intros cur save Hc. unfold den_step. cbn [aden]. rewrite aligned_eq.
+      intros cur save Hc. unfold fden_step. cbn [aden]. rewrite aligned_eq.
       destruct (cur mod 2 ^ N.min k0 32 =? 0); [apply H1; exact Hc|exists save; split; [reflexivity|apply outside_refl]].
     - (* jumps *) destruct H as [H1 H2]. split; [|intros b Hp; destruct j; discriminate].
-      intros cur save Hc. unfold den_step. destruct j; cbn [jatom aden jump_target].
+      intros cur save Hc. unfold fden_step. destruct j; cbn [jatom aden jump_target].
       + destruct (sc_read sc 1 cur); [apply H1; apply wadd32_lt|exists save; split; [reflexivity|apply outside_refl]].
       + destruct (sc_read sc 4 cur); [apply H1; apply wadd32_lt|exists save; split; [reflexivity|apply outside_refl]].
       + destruct (sc_read sc (sc_va_bytes sc) cur) as [va|]; [|exists save; split; [reflexivity|apply outside_refl]].
@@ -520,7 +590,6 @@ Section Sim2.
 End Sim2.
 
 (* ================================================================ (iv) assembling theorem 3a *)
-Definition nslots (l : list item) : N := fold_right (fun it n => slots_of it + n) 0 l.
 
 Lemma wf_seq_items l : forall c, wf_seq l c -> Forall (fun it => exists c', wf_item it c') l.
 Proof.
@@ -530,7 +599,7 @@ Proof.
 Qed.
 
 Lemma sim_items sc e : scan_wf sc -> forall l s, flat l = true -> Forall (fun it => exists c', wf_item it c') l ->
-  s + nslots l = e -> sim sc e (isos l s) (aden sc (isos l s) [] ktop) s (den sc l s).
+  s + nslots l = e -> sim sc e (isos l s) (aden sc (isos l s) [] ktop) s (fden sc l s).
 Proof.
   intros Hwf. induction l as [|it t IH]; intros s Hf Hw Hs.
   - cbn [nslots fold_right] in Hs. rewrite N.add_0_r in Hs. subst s. apply sim_top.
@@ -538,7 +607,7 @@ Proof.
     pose proof (Forall_inv Hw) as [c' Wx]. pose proof (Forall_inv_tail Hw) as Wt. cbn [nslots fold_right] in Hs. fold (nslots t) in Hs.
     specialize (IH (s + slots_of it) Ht Wt ltac:(lia)).
     pose proof (sim_item sc Hwf e it c' (isos t (s + slots_of it)) _ s _ Hx Wx ltac:(lia) IH) as S.
-    cbn [isos den]. eapply sim_ext; [|exact S].
+    cbn [isos fden]. eapply sim_ext; [|exact S].
     intros c m x sv. rewrite aden_app, app_nil_r. reflexivity.
 Qed.
 
@@ -592,14 +661,14 @@ Theorem exec_comp_den_flat sc a cursor save : scan_wf sc -> flat a = true -> wf 
     | None => ok = false
     end.
 Proof.
-  intros Hwf Hf Hw Hc.
+  intros Hwf Hf Hw Hc. rewrite (den_top_flat sc a cursor Hf).
   assert (Hsc : forall rva x, sc_read sc 1 rva = Some x -> rva + 1 < W32).
   { intros rva x H. exact (proj2 (proj1 Hwf rva x H)). }
   rewrite (run_exec_aden sc Hsc) by (apply comp_seq_flat; [exact Hf|reflexivity]).
   rewrite (aeq_seq sc a cinit Hf). cbn [cinit c_res c_save app aden].
   pose proof (sim_items sc (1 + nslots a) Hwf a 1 Hf (wf_seq_items _ _ Hw) eq_refl) as [S _].
-  specialize (S cursor (set_slot save 0 cursor) Hc). unfold den_top.
-  destruct (den sc a 1 cursor) as [lg|]; cbn [option_map].
+  specialize (S cursor (set_slot save 0 cursor) Hc). unfold fden_top.
+  destruct (fden sc a 1 cursor) as [lg|]; cbn [option_map].
   - destruct S as [S _]. eexists. eexists. split; [rewrite S; reflexivity|]. split; reflexivity.
   - destruct S as [save' [S _]]. eexists. eexists. split; [rewrite S; reflexivity|reflexivity].
 Qed.
